@@ -59,6 +59,7 @@ func runC07(p *core.Prog, r *core.Result) {
 		"R7.8 scalar opcodes decode to the same Starlark type that selected them in the encoder",
 		"R7.9 operand-stack discipline (bytecode-verifier style): with the stack effects read off the decoder's cases, every encoder path leaves exactly one value per encoded value and stack heights agree at every join",
 		"R7.10 no slice of the decoder's operand stack or memo escapes into a decoded value",
+		"R7.14 integers are rebuilt from their payload without value-changing conversions: no sign change at equal width and no narrowing on the way into starlark.MakeInt*/MakeUint* other than the two's-complement reinterpretation of a fixed-width payload just read; values outside the fixed widths go through math/big",
 		"R7.13 every value the decoder pushes is built from the current opcode's payload, the operand stack, the memo or the host unpickler - no other decoder-wide state (interning tables, caches) can supply it",
 		"R7.12 the encoder's memo is consulted and filled only under the value being encoded itself (never under a key constructed from its contents), so values of different types never share a memo entry",
 		"R7.11 decoder cases that fill a container in place (push nothing) only shorten the operand stack: no stack slot is overwritten, so the object stays the one its memo entry refers to (sharing and self-reference survive)",
@@ -277,6 +278,90 @@ func runC07(p *core.Prog, r *core.Result) {
 
 	// ---- R7.13 decoded values come from the payload, the stack or the memo
 	checkDecodedFromPayload(p, r)
+
+	// ---- R7.14 integers are rebuilt without value-changing conversions
+	checkIntegerRebuild(p, r)
+}
+
+// checkIntegerRebuild implements R7.14: in package pickle, the argument of every starlark.MakeInt / MakeInt64 /
+// MakeUint / MakeUint64 is computed without a value-changing integer conversion (a sign change at the same width, or
+// a narrowing) - except the two's-complement reinterpretation of a fixed-width payload that was just read (BININT),
+// whose range R7.2/R7.3 decide - and without negating a parsed magnitude. Big values go through math/big.
+func checkIntegerRebuild(p *core.Prog, r *core.Result) {
+	sp := p.Pkg("pickle")
+	if sp == nil {
+		return
+	}
+	n := 0
+	for _, fn := range p.ModuleFuncs() {
+		if fn.Pkg != sp && (fn.Parent() == nil || core.Outer(fn).Pkg != sp) {
+			continue
+		}
+		k := 0
+		for _, c := range core.Calls(fn) {
+			cal := core.Callee(c)
+			if cal == nil || cal.Pkg == nil || cal.Pkg.Pkg.Path() != pkgStar {
+				continue
+			}
+			switch cal.Name() {
+			case "MakeInt", "MakeInt64", "MakeUint", "MakeUint64":
+			default:
+				continue
+			}
+			n++
+			k++
+			construct := fmt.Sprintf("%s#%s-%d", fname(fn), cal.Name(), k)
+			bad := ""
+			fromFixedRead := func(v ssa.Value) bool {
+				return core.DependsOn(v, core.SliceOpts{}, func(x ssa.Value) bool {
+					cc, ok := x.(*ssa.Call)
+					if !ok {
+						return false
+					}
+					h := core.Callee(cc)
+					return h != nil && h.Pkg == sp && strings.HasPrefix(h.Name(), "read")
+				}) && !core.DependsOn(v, core.SliceOpts{}, func(x ssa.Value) bool {
+					cc, ok := x.(*ssa.Call)
+					if !ok {
+						return false
+					}
+					h := core.Callee(cc)
+					return h != nil && h.Pkg != nil && h.Pkg.Pkg.Path() == "strconv"
+				})
+			}
+			for x := range core.BackwardSlice(c.Common().Args[0], core.SliceOpts{Stores: true, Helpers: true}) {
+				switch y := x.(type) {
+				case *ssa.Convert:
+					st, okS := y.X.Type().Underlying().(*types.Basic)
+					dt, okD := y.Type().Underlying().(*types.Basic)
+					if !okS || !okD || st.Info()&types.IsInteger == 0 || dt.Info()&types.IsInteger == 0 {
+						continue
+					}
+					ss, ds := p.SizeofType(y.X.Type()), p.SizeofType(y.Type())
+					sU, dU := st.Info()&types.IsUnsigned != 0, dt.Info()&types.IsUnsigned != 0
+					lossy := ds < ss || (ds == ss && sU != dU) || (!sU && dU)
+					if lossy && !fromFixedRead(y.X) {
+						bad = fmt.Sprintf("%s(%s) at %s", dt.Name(), st.Name(), p.InstrPos(y))
+					}
+				case *ssa.UnOp:
+					if y.Op == token.SUB {
+						if core.DependsOn(y.X, core.SliceOpts{}, func(z ssa.Value) bool {
+							cc, ok := z.(*ssa.Call)
+							if !ok {
+								return false
+							}
+							h := core.Callee(cc)
+							return h != nil && h.Pkg != nil && h.Pkg.Pkg.Path() == "strconv"
+						}) {
+							bad = "the negation of a parsed magnitude at " + p.InstrPos(y)
+						}
+					}
+				}
+			}
+			r.Check(bad == "", "R7.14", construct, p.InstrPos(c.(ssa.Instruction)), "the integer is rebuilt from its payload without a value-changing conversion", "the decoded integer passes through "+bad+", which changes the value for part of its range (a magnitude above the signed maximum wraps around): such values decode to a different integer without an error, and two distinct values become equal")
+		}
+	}
+	r.Floor("R7.14", n, 2, "starlark.MakeInt* calls in package pickle")
 }
 
 func checkMemoParity(p *core.Prog, r *core.Result, ops *opTable, dt *decoderTable, memoizeE *ssa.Function) {
